@@ -140,7 +140,7 @@ CHECKS.update({
          'an END line with labels and with or without expression - that renders an abstract program having a meaning (spec/Meaning.v: labels are offsets from the referring instruction, END-line labels the address past the code, dialect defaults for omitted modes and modifiers, lone-operand rule, fields modulo the core size, ORG/END entry point) '
          'is assembled by compile_warrior to exactly that code, entry point and comment metadata, for both dialects and every valid configuration; a concrete program exercising all of this is checked by vm_compute to meet the hypotheses. '
          'Also proved separately: lexer on any sequence of well-placed lexemes; default-modifier tables equal the reference tables; one substitution pass is token-wise and replaces every EQU name by its text; mnemonics recognised under every letter-casing; entry point lemma. '
-         'EQU: the reference substitutes names pass by pass with the definitions as written and evaluates the token list; the compiler uses its table of resolved values - both arrive at the same token list (C03Equ) and both evaluators give it the same value (C07Inverse), definitions that refer to each other along a rank pass the cycle check. FOR: a text whose tokens unroll block by block (C08) to such a document is assembled to the meaning of the unrolled program (C03_programs_with_for_partial), and for a block without labels or counter over unlabelled instruction and comment lines, count >= 1 from any expression over the EQU symbols in front, that relation is constructed rather than assumed (C03_programs_with_plain_for_partial, with an example; C03_programs_with_counter_for_partial for `c FOR count` whose body uses the counter in its operands, with an example), as it is for the comment idiom - a block with count <= 0 around any body (C03_programs_with_comment_block_partial, with an example). NOT proved: FOR blocks with block labels, labelled body lines or nesting and ;assert lines inside the end-to-end statement (kept as C03_full_statement; parts in C07, C08), EQU together with an END line. That statement is decided on every run by the two-stage correspondence: generated abstract programs rendered under several styles by the extracted renderer, assembled by gmars and by the extracted model, compared with the extracted meaning.'),
+         'EQU: the reference substitutes names pass by pass with the definitions as written and evaluates the token list; the compiler uses its table of resolved values - both arrive at the same token list (C03Equ) and both evaluators give it the same value (C07Inverse), definitions that refer to each other along a rank pass the cycle check. FOR: a text whose tokens unroll block by block (C08) to such a document is assembled to the meaning of the unrolled program (C03_programs_with_for_partial), and for a block without labels or counter over unlabelled instruction and comment lines, count >= 1 from any expression over the EQU symbols in front, that relation is constructed rather than assumed (C03_programs_with_plain_for_partial, with an example; C03_programs_with_counter_for_partial for `c FOR count` whose body uses the counter in its operands, with an example; C03_programs_with_blocks_partial for ANY NUMBER of such blocks one after another, by induction over the blocks, with an example of two blocks), as it is for the comment idiom - a block with count <= 0 around any body (C03_programs_with_comment_block_partial, with an example). NOT proved: FOR blocks with block labels, labelled body lines or nesting and ;assert lines inside the end-to-end statement (kept as C03_full_statement; parts in C07, C08), EQU together with an END line. That statement is decided on every run by the two-stage correspondence: generated abstract programs rendered under several styles by the extracted renderer, assembled by gmars and by the extracted model, compared with the extracted meaning.'),
    design_ref='DESIGN.md 0.2, 5 C03', note=NOTE_STD + ' EQU/FOR/;assert programs are covered by differential testing against the by-construction meaning; the end-to-end theorem covers labelled instructions with ORG/END in every layout.',
    technique='Coq end-to-end theorem for EQU/FOR-free programs (positioned-parser symbolic execution by induction over documents, refinement of the compile stage to the independent meaning function, lexer lemma for arbitrary spacing) + compile-stage lemmas + per-run two-stage differential correspondence against the independent meaning function'),
  'C08': dict(
